@@ -55,8 +55,10 @@ OBLIGATIONS = [
      "statement": "a cached connection of the other TLS mode (FC07a) or an idle one is closed and evicted, never handed out; a new one is opened in the request's mode"},
     {"id": "C17_P1", "theorem": "Iora.C17.P1_entry_table", "kind": "proved",
      "statement": "the public entry points (every function with an `int retries` parameter) and the method each hands to performRequest, directly or by delegation; no duplicate rows (translator: one request-issuing call per body, no try/catch, not in a loop, budget = the caller's `retries`)"},
-    {"id": "C17_P2", "theorem": "Iora.C17.P2_public_is_one_performRequest", "kind": "proved",
-     "statement": "a public call is exactly one performRequest with the table's method and the caller's budget"},
+    {"id": "C17_P2", "theorem": "Iora.C17.P2_call_sites", "kind": "proved",
+     "statement": "EVERY textual call of performRequest/executeRequest (http_client.hpp + pool): executeRequest is called by performRequest alone; every caller of performRequest is a checked row of the entry table; no function calls twice; every such row is a real call site"},
+    {"id": "C17_P2u", "theorem": "Iora.C17.P2_public_is_one_performRequest", "kind": "proved",
+     "statement": "(unfolding of publicCall) a public call is one performRequest with the table's method and the caller's budget"},
     {"id": "C17_R1_public", "theorem": "Iora.C17.R1_public", "kind": "proved",
      "statement": "R1/R2 for the public API: post/postJson/postFile/postStream/postJsonAsync with any budget and script: all attempts but the last not sent, at most one reaches sendSync, at most budget+1 attempts"},
     {"id": "C17_backoff", "theorem": "Iora.C17.Backoff_fits_int", "kind": "proved",
@@ -73,8 +75,38 @@ OBLIGATIONS = [
      "statement": "an attempt makes at most (#need-more answers)+1 receiveSync calls"},
     {"id": "C17_R6_silence", "theorem": "Iora.C17.R6_silence_ends_attempt", "kind": "proved",
      "statement": "a silent peer ends the attempt with an error at that receive"},
+    {"id": "C17_R6_lease", "theorem": "Iora.C17.R6_lease_wait_bounded", "kind": "proved",
+     "statement": "acquireLease's timed wait as a loop of wake-ups with ONE absolute deadline: for EVERY wake-up pattern (notify_all of other hosts' releases, spurious, cleanup) the wait ends no later than leaseAcquireTimeout after it began, a time-out is reported exactly then, the lease is granted only by a wake-up that saw the host free and the client not closing"},
+    {"id": "C17_R6_lease_foreign", "theorem": "Iora.C17.R6_lease_wait_foreign_wakeups", "kind": "proved",
+     "statement": "the seeded scenario C17-d: any number of wake-ups by exchanges with another host, at any interval, while the host stays leased: the waiter times out at exactly leaseAcquireTimeout"},
+    {"id": "C17_R6_dns", "theorem": "Iora.C17.R6_send_and_dns_waits", "kind": "proved",
+     "statement": "the list of timed waits of the request path is complete (6 rows): sendSync is bounded by requestTimeout; (observation) the DNS look-up of a host name runs on DnsClient's own defaults, which no HttpClient::Config value bounds"},
+    {"id": "C17_U1", "theorem": "Iora.C17.U1_port_in_range", "kind": "proved",
+     "statement": "parseUrl: the port handed to connectSync and put into the host:port key is < 65536"},
+    {"id": "C17_U2", "theorem": "Iora.C17.U2_port_wraps", "kind": "proved",
+     "statement": "(observation) static_cast<uint16_t>(stoi): port p+65536 is the same port/key as p (http://h:65616/ goes to port 80)"},
+    {"id": "C17_U3", "theorem": "Iora.C17.U3_url_failure", "kind": "proved",
+     "statement": "parseUrl fails only with invalid_argument (no match) or out_of_range (port beyond int), before the lease; either way <= budget+1 executeRequest calls and exactly ONE for a non-idempotent method"},
+    {"id": "C17_U3t", "theorem": "Iora.C17.U3_tie", "kind": "proved",
+     "statement": "for invalid_argument the count of the pre-lease failure loop is the full model's; no engine call, client unchanged"},
+    {"id": "C17_L1", "theorem": "Iora.C17.L1_cleanup", "kind": "proved",
+     "statement": "cleanup(): _closing set for good, exactly the cached sessions closed, cache empty"},
+    {"id": "C17_L2", "theorem": "Iora.C17.L2_after_cleanup_every_request_fails", "kind": "proved",
+     "statement": "after cleanup EVERY request (method, budget, script): no engine call at all, cache stays empty, no attempt reaches sendSync, <= budget+1 attempts, std::runtime_error"},
+    {"id": "C17_S1", "theorem": "Iora.C17.S1_start_failure_no_attempt", "kind": "proved",
+     "statement": "ensureInitialized() runs before the loop: a transport start failure ends performRequest with std::runtime_error after ZERO attempts (no executeRequest, no engine call, client unchanged), for every method and budget"},
+    {"id": "C17_G", "theorem": "Iora.C17.G_skeleton_pins", "kind": "proved",
+     "statement": "skeleton facts the model relies on without computing with them (calls before/inside the pre-send region, cap comparison, receiveSync never ok with 0 bytes, form of the lease wait, thrown types of parseUrl) are pinned: a change stops the build"},
+    {"id": "C17_R4link", "theorem": "Iora.C17.R4_bytes_reuse_decision_agrees", "kind": "proved",
+     "statement": "C15's byte-level executeReceive drops the connection iff C17's underLease does on the attempt ABSTRACTED from the same bytes (recvs, surplus, residue, Connection value, version computed by the byte-level loop); result classes agree — every script, client state, host, configuration"},
+    {"id": "C17_R4rrc", "theorem": "Iora.C17.R4_bytes_close_signal_agrees", "kind": "proved",
+     "statement": "the two Lean models of responseRequestsClose (C15 split/trim/lower, C17 index loop) agree on every parsed response"},
+    {"id": "C17_R4beyond", "theorem": "Iora.C17.R4_bytes_beyond_message_not_cached", "kind": "proved",
+     "statement": "byte level: if ANY received byte lies beyond the framed message (handed to the framer or left in the transport) nothing is cached for the host afterwards"},
+    {"id": "C17_R4demo", "theorem": "Iora.C17.R4_bytes_demo", "kind": "proved",
+     "statement": "non-vacuity with concrete bytes: keep-alive response + 1 surplus byte in the same delivery is not cached, without it it is"},
 ]
-LEANCHECK = MODULES + ["IoraModel.Lemmas.HttpRetry", "IoraModel.Lemmas.HttpRetryCache", "IoraModel.Lemmas.HttpLease", "IoraModel.Lemmas.HttpClose", "IoraModel.Model.HttpRetry", "IoraModel.Model.HttpLease"]
+LEANCHECK = MODULES + ["IoraModel.Lemmas.HttpClientLife", "IoraModel.Lemmas.HttpRetryFraming", "IoraModel.Model.HttpClientLife", "IoraModel.Lemmas.HttpRetry", "IoraModel.Lemmas.HttpRetryCache", "IoraModel.Lemmas.HttpLease", "IoraModel.Lemmas.HttpClose", "IoraModel.Model.HttpRetry", "IoraModel.Model.HttpLease"]
 ANCHOR_FILES = ["include/iora/network/http_client.hpp", "include/iora/network/transport_impl.hpp"]
 HERE = os.path.dirname(os.path.dirname(os.path.abspath(__file__)))
 
@@ -624,7 +656,128 @@ def gen_pure(rng, n):
             ops.append("rrc %s %s" % ("~" if v is None else hexs(v), hexs(ver)))
             exp.append("1" if py_close_signalled(v, ver) else "0")
     cases.append({"cat": "rrc", "ops": ops, "expect": exp})
+    # lists of 1..40 elements with `close` (or `keep-alive`, or neither) at EVERY position: a bound on the number of elements looked at,
+    # or a loop that stops early, shows here
+    ops, exp = [], []
+    fill = [b"foo", b"upgrade", b"x-close", b"", b" ", b"TE", b"closed"]
+    for n in range(1, 41):
+        positions = range(n) if n <= 12 else sorted({0, 1, 5, 6, 7, n // 2, n - 2, n - 1, rng.below(n)})
+        for pos in positions:
+            for tokv in (b"close", b"keep-alive"):
+                toks = [rng.choice(fill) for _ in range(n)]
+                toks[pos] = rng.choice([b"", b" ", b"\t"]) + (tokv if rng.chance(2, 3) else tokv.upper()) + rng.choice([b"", b" "])
+                v = b",".join(toks)
+                ver = rng.choice([b"1.1", b"1.0"])
+                ops.append("rrc %s %s" % (hexs(v), hexs(ver)))
+                exp.append("1" if py_close_signalled(v, ver) else "0")
+        v = b",".join(rng.choice(fill) for _ in range(n))
+        for ver in (b"1.1", b"1.0"):
+            ops.append("rrc %s %s" % (hexs(v), hexs(ver)))
+            exp.append("1" if py_close_signalled(v, ver) else "0")
+    cases.append({"cat": "rrc", "ops": ops, "expect": exp})
     return cases
+
+
+def gen_contend(rng, n):
+    """Three callers, deterministic in virtual time (seeded change C17-d): T1 holds host X behind a silent peer, T2 waits for X's lease,
+    T3 completes an exchange with host Y every `step` ms (< leaseAcquireTimeout) — each release wakes T2. T2 must time out after
+    leaseAcquireTimeout whatever the wake-ups; the model predicts the round."""
+    cases = []
+    shapes = [(250, 40, 9), (250, 100, 4), (120, 7, 30), (300, 299, 3), (90, 30, 5), (200, 50, 6)]
+    for i in range(n):
+        lease, step, rounds = shapes[i] if i < len(shapes) else (rng.range(60, 400), rng.range(5, 59), 0)
+        if not rounds:
+            rounds = min(lease // step + rng.range(2, 4), 60)
+        cases.append({"cat": "contend", "ops": [RESET % (1, 0, lease, 5000, CONNECT_TIMEOUT_MS), "contend %d %d %d" % (lease, step, rounds)]})
+    return cases
+
+
+def gen_life(rng, seq):
+    """cleanup() and what follows it; URLs whose port wraps (kind 3: the SAME key as kind 0), is beyond `int` (kind 4: std::out_of_range
+    from parseUrl on every attempt), or is a second port of the same host (kind 5: another key)."""
+    cases = []
+    def ok(tag, method="GET"):
+        return tok_ok(mk_resp(tag, method))
+    for warm in ([], [0], [0, 1], [0, 5], [0, 1, 5]):
+        for method, budget in (("GET", 0), ("GET", 2), ("POST", 3), ("PUT", 1), ("PATCH", 0), ("DELETE", 4)):
+            ops = [RESET1]
+            for k in warm:
+                seq.next()
+                ops.append(req_op("GET", 0, k, 0, [ok(b"lw%d" % seq.n)] * 2))
+            ops.append("cleanup")
+            for m2, b2, k2 in ((method, budget, rng.choice([0, 1, 5])), (rng.choice(["POST", "GET"]), rng.choice([0, 1]), 0)):
+                seq.next()
+                entries = [e for e, mth in PY_ENTRY.items() if mth == m2]
+                toks = [ok(b"lc%d" % seq.n, m2)] * (b2 + 2)
+                ops.append(call_op(rng.choice(entries), b2, k2, 0, toks) if entries and rng.chance(1, 3) else req_op(m2, b2, k2, 0, toks))
+            if rng.chance(1, 2):
+                ops.append("cleanup")      # twice: idempotent
+                seq.next()
+                ops.append(req_op("GET", 1, 0, 0, [ok(b"ld%d" % seq.n)] * 3))
+            cases.append({"cat": "cleanup", "ops": ops})
+    for method, budget in (("GET", 0), ("GET", 3), ("POST", 0), ("POST", 2), ("PUT", 2), ("get", 2), ("HEAD", 1), ("PATCH", 5), ("GET", -1)):
+        seq.next()
+        cases.append({"cat": "url-port", "ops": [RESET1, req_op(method, budget, 4, 0, [ok(b"up%d" % seq.n, method)] * (max(budget, 0) + 2)),
+                                                 req_op("GET", 0, 0, 0, [ok(b"upz%d" % seq.n)] * 2)]})
+    for order in ((0, 3, 0), (3, 0, 3), (0, 5, 0, 5), (5, 3, 5), (0, 5, 3, 1), (5, 5, 0)):
+        ops = [RESET1]
+        for k in order:
+            seq.next()
+            m = rng.choice(["GET", "POST"])
+            ops.append(req_op(m, 0, k, 0, [ok(b"uk%d" % seq.n, m)] * 2))
+        # a failure on one port must not touch the other port's entry
+        seq.next()
+        ops.append(req_op("GET", 0, order[0], 0, [tok_req_fault("r", 20), ok(b"ukf%d" % seq.n)]))
+        for k in order[:2]:
+            seq.next()
+            ops.append(req_op("GET", 0, k, 0, [ok(b"ukg%d" % seq.n)] * 2))
+        cases.append({"cat": "url-port", "ops": ops})
+    return cases
+
+
+def gen_caller_headers(rng, seq):
+    """request header fields supplied by the CALLER — its own `Connection: close` / `keep-alive`, a `Content-Length: 0` on a body-less
+    request, an `Expect`: executeRequest copies them behind its own fields; neither the retry decisions nor the reuse decision may depend
+    on them (the scripted server answers by its script, whatever the request says)."""
+    cases = []
+    for name, value in ((b"Connection", b"close"), (b"Connection", b"keep-alive"), (b"connection", b"close"), (b"Content-Length", b"0"),
+                        (b"Expect", b"100-continue"), (b"Host", b"other.example")):
+        for reuse_cfg in (1, 0):
+            ops = [RESET % (reuse_cfg, 0, LEASE_TIMEOUT_MS, REQUEST_TIMEOUT_MS, CONNECT_TIMEOUT_MS), "hdr %s %s" % (hexs(name), hexs(value))]
+            for method, budget, first in (("GET", 1, None), ("POST", 2, "R"), ("GET", 2, "C"), ("POST", 1, "C"), ("PUT", 1, "T"), ("GET", 0, None)):
+                s = seq.next()
+                tag = ("ch%d" % s).encode()
+                toks = [] if first is None else [tok_client(first) if first == "R" else (tok_req_fault("s", 30) if first == "T" else tok_resp_fault(mk_resp(tag, method), 9, "f"))]
+                toks += [tok_ok(mk_resp(tag + b"k", method, conn=rng.choice([None, b"keep-alive", b"close"])))] * (budget + 2)
+                ops.append(req_op(method, budget, 0, 0, toks[:budget + 2]))
+            cases.append({"cat": "caller-headers", "ops": ops})
+    return cases
+
+
+def monitor_contend(op, line):
+    bad = []
+    if not line.startswith("t1="):
+        return ["R6: the three-caller operation did not end with a result: %s -> %s" % (op, line[:120])]
+    f = fields_of(line)
+    lease, step = int(f.get("lease", "0")), int(f.get("step", "0"))
+    t2 = f.get("t2", "?/0/-").split("/")
+    if int(f.get("t2deadlines", "0")) > 1:
+        bad.append("R6: the lease wait of the same-host caller was re-armed: %s distinct absolute deadlines over %s waits (a wait re-entered after a "
+                   "wake-up must keep its deadline; leaseAcquireTimeout %d ms, another host's exchange completing every %d ms)" % (f.get("t2deadlines"), f.get("t2wakes"), lease, step))
+    if int(f.get("t2wait", "0")) > lease + step + 5:
+        bad.append("R6: the caller waited %s ms (virtual) for the lease with leaseAcquireTimeout %d ms (woken every %d ms by releases of another host)" % (f.get("t2wait"), lease, step))
+    if int(f.get("t2asked", "0")) and abs(int(f.get("t2asked")) - lease) > 1:
+        bad.append("R6: the lease wait asked for %s ms; leaseAcquireTimeout is %d ms" % (f.get("t2asked"), lease))
+    if f.get("t2wire") != "0" or t2[2] != "-":
+        bad.append("R4: the request of the caller that could not get the lease reached the host all the same (server saw it %s time(s), engine calls %s)" % (f.get("t2wire"), t2[2]))
+    if t2[0].startswith("ok"):
+        bad.append("R6: the waiter got the lease although the holder's exchange was still in progress when its time-out passed (t2=%s)" % f.get("t2"))
+    if f.get("leased") != "0":
+        bad.append("R4: lease still held after all callers returned (leased=%s)" % f.get("leased"))
+    t1 = f.get("t1", "?/0/-").split("/")
+    if t1[2].count("s") > 1 or int(t1[1]) > 1:
+        bad.append("R1: the POST behind the silent peer was attempted %s times (engine calls %s)" % (t1[1], t1[2]))
+    return bad
 
 
 def gen_par(rng, n_cases):
@@ -633,7 +786,10 @@ def gen_par(rng, n_cases):
     cases = []
     for ci in range(n_cases):
         reuse_cfg = not rng.chance(1, 6)
-        ops = [RESET % (1 if reuse_cfg else 0, 0, 0, REQUEST_TIMEOUT_MS, CONNECT_TIMEOUT_MS)]
+        # half of the cases take the TIMED lease wait (`wait_for` with a predicate) under real contention; 60 s of virtual time never pass
+        # (no silence in `par`, nothing advances the clock), so the wait always ends by a release — the model's answer is `granted`
+        par_lease = 60000 if rng.chance(1, 2) else 0
+        ops = [RESET % (1 if reuse_cfg else 0, 0, par_lease, REQUEST_TIMEOUT_MS, CONNECT_TIMEOUT_MS)]
         if rng.chance(1, 2):    # warm up: something may already be cached
             m = rng.choice(["GET", "POST"])
             ops.append(req_op(m, 0, rng.choice([0, 0, 1]), 0, [rand_ok(rng, ("w%d" % ci).encode(), m), tok_ok(mk_resp(b"wz", m))]))
@@ -859,13 +1015,26 @@ def monitor_case(c, impl, consts):
     t_lease, t_request, t_connect = LEASE_TIMEOUT_MS, REQUEST_TIMEOUT_MS, CONNECT_TIMEOUT_MS
     reuse_cfg = True
     realtime = False
+    cleaned = False
     for op, l in zip(c["ops"], impl):
+        if op == "cleanup":
+            cleaned = True
+            f = fields_of(l)
+            if not l.startswith("ev=") or f.get("cache") != "-":
+                bad.append("L1: cleanup() left cached connections / did not return: %s" % l[:120])
+            elif any(e[0] != "x" for e in (f["ev"].split(",") if f["ev"] != "-" else [])):
+                bad.append("L1: cleanup() did something other than closing sessions: %s" % f["ev"])
+            continue
+        if op.startswith("contend "):
+            bad += monitor_contend(op, l)
+            continue
         if op.startswith("reset "):
             rt = op.split()
             reuse_cfg = rt[1] == "1"
             t_lease, t_request, t_connect = int(rt[3]), int(rt[4]), min(int(rt[5]), consts["localConnectCapMs"])
             closed = set()
             tainted = {}
+            cleaned = False
             continue
         if op.startswith("vclock "):
             realtime = op.split()[1] == "0"
@@ -886,7 +1055,27 @@ def monitor_case(c, impl, consts):
             bad.append("R6: unparsable answer %s" % l[:120])
             continue
         script = m["toks"]
-        host = 1 if m["url_kind"] == 1 else 0
+        if m["url_kind"] == 4:
+            m["url_kind"] = 9       # a URL that parseUrl rejects (port beyond `int`): judged like any other unparsable URL
+            if f["ev"] != "-" or int(f.get("wire", "0")) or int(f.get("srvwire", "0")):
+                bad.append("U3: a request whose URL does not parse reached the engine / the wire (ev=%s wire=%s)" % (f["ev"], f.get("wire")))
+        if cleaned:
+            # after cleanup(): every request fails, makes no engine call, sends nothing, within the budget
+            if not f["res"].startswith("err:") or f["ev"] != "-" or int(f.get("wire", "0")) or int(f.get("srvwire", "0")) or f.get("cache") != "-":
+                bad.append("L2: after cleanup() a request did not fail cleanly: res=%s ev=%s wire=%s cache=%s" % (f["res"], f["ev"], f.get("wire"), f.get("cache")))
+            if att > max(m["budget"], 0) + 1:
+                bad.append("R2: %d attempts with retry budget %d after cleanup()" % (att, m["budget"]))
+            if m["method"] not in RFC_IDEMPOTENT and att != 1:
+                bad.append("L2: a %s on a cleaned-up client was attempted %d times (every attempt must fail at the lease, which is not a provably-unsent failure)" % (m["method"], att))
+            continue
+        host = {1: 1, 5: 2}.get(m["url_kind"], 0)
+        # the receive loop is entered only by an attempt that handed the request to the transport (R1: `receives = 0` for a not-sent attempt)
+        rz = f.get("rz", "").split(",")
+        for i, a in enumerate(script[:att]):
+            if i < len(rz) and rz[i] == "+" and (a.cls in "LM" or m["url_kind"] == 9):
+                bad.append("R1: attempt %d (class %s: fails before sendSync) called receiveSync" % (i, a.cls))
+        if m["method"] not in RFC_IDEMPOTENT and any(x == "+" for x in rz[:max(att - 1, 0)]):
+            bad.append("R1: %s: an attempt that was followed by another one had entered the receive loop (rz=%s)" % (m["method"], f.get("rz")))
         idem = m["method"] in RFC_IDEMPOTENT
         budget = max(m["budget"], 0)
         sends = [e for e in ev if e[0] == "s"]
@@ -1004,6 +1193,19 @@ def gen_consts():
 MONITORS_ONLY = ("racy", "late-surplus", "fin-after-response")
 
 
+def cleanedp(ops, op):
+    """is `op` preceded by a `cleanup` (and no later reset) in its case?"""
+    cl = False
+    for o in ops:
+        if o is op:
+            return cl
+        if o == "cleanup":
+            cl = True
+        elif o.startswith("reset "):
+            cl = False
+    return cl
+
+
 def compared(line):
     return line.split(" | ")[0]
 
@@ -1038,7 +1240,10 @@ def run(ctx: Ctx):
             cases = load_corpus()
             for c in cases:
                 seq.n += sum(1 for o in c["ops"] if o.startswith("req ") or o.startswith("call "))
+            cases += gen_contend(rng.fork("contend"), 8 if quick else 60)
             cases += gen_pure(rng.fork("pure"), 60 if quick else 600)
+            cases += gen_life(rng.fork("life"), seq)
+            cases += gen_caller_headers(rng.fork("hdr"), seq)
             cases += gen_random(rng.fork("seq"), seq, 350 if quick else 9000)
             cases += gen_offsets(rng.fork("off"), seq, every_byte=not quick)
             cases += gen_persistent(rng.fork("pers"), seq)
@@ -1081,15 +1286,48 @@ def run(ctx: Ctx):
                     late_surplus["reused" if impl[-1].startswith("ev=s") else "fresh"] += 1
                 if c["cat"] == "fin-after-response" and len(impl) > 1 and impl[1].startswith("ev="):
                     fin_after["kept" if "cache=h" in impl[1] else "evicted"] += 1
+                def bump(k, by=1):
+                    dist[k] = dist.get(k, 0) + by
                 for op, l in zip(c["ops"], impl):
-                    if l.startswith("ev="):
-                        n = int(fields_of(l).get("att", "0"))
+                    if op.startswith("reset ") and l == "ok":
+                        rt = op.split()
+                        bump("cfg:reuse=%s" % rt[1]); bump("cfg:lease=%s" % ("0" if rt[3] == "0" else "timed")); bump("cfg:cap=%s" % ("default" if rt[2] == "0" else "set"))
+                    if op.startswith("contend ") and l.startswith("t1="):
+                        fc = fields_of(l)
+                        bump("contend:ops"); bump("contend:wakeups_of_waiter", int(fc.get("t2wakes", "0"))); bump("contend:round=%s" % fc.get("round"))
+                    if op == "cleanup" and l.startswith("ev="):
+                        bump("cleanup:ops"); bump("cleanup:sessions_closed", 0 if fields_of(l)["ev"] == "-" else len(fields_of(l)["ev"].split(",")))
+                    if l.startswith("ev=") and (op.startswith("req ") or op.startswith("call ")):
+                        fl = fields_of(l)
+                        n = int(fl.get("att", "0"))
                         exchanges += n
-                        for t in op.split()[5:5 + n]:
-                            k = "att:" + t.lstrip("I")[0]
-                            dist[k] = dist.get(k, 0) + 1
-                        k = "res:" + fields_of(l).get("res", "?")
-                        dist[k] = dist.get(k, 0) + 1
+                        ot = op.split()
+                        for t in ot[5:5 + n]:
+                            # measured: only attempts the implementation really made (att) are counted, by the class of their script token
+                            sem = t.split("@")[0]
+                            bump("att:" + sem.lstrip("I")[0])
+                            if sem.startswith("I"):
+                                bump("att:idle-aged(I)")
+                            if sem.lstrip("I")[0] == "K":
+                                sf = sem.split(":")
+                                if len(sf) > 2 and sf[2] == "0":
+                                    bump("att:K.setAsync=0")
+                                if len(sf) > 3 and sf[3] == "1":
+                                    bump("att:K.residue=1")
+                                if sf[1].endswith(",1"):
+                                    bump("att:K.surplus=1")
+                        bump("res:" + fl.get("res", "?"))
+                        bump("url_kind:%s" % ot[3])
+                        if int(ot[2]) < 0:
+                            bump("budget:negative")
+                        if ot[0] == "call":
+                            bump("entry:" + ot[1])
+                        bump("recv_calls", sum(int(x) for x in fl.get("rc", "0").split(",") if x.isdigit()))
+                        bump("probe_calls", int(fl.get("probes", "0")))
+                        if fl.get("ev", "-").startswith("s"):
+                            bump("reused_cached_connection")
+                        if cleanedp(c["ops"], op):
+                            bump("req_after_cleanup")
                 mism = [] if c["cat"] in MONITORS_ONLY or any(l.startswith("skip:") for l in impl) else [(i, a, b) for i, (a, b) in enumerate(zip(impl, model)) if compared(a) != b]
                 if len(ctx.cov["samples"]) < 6 and c["cat"] in ("sequence", "offset-request", "offset-response", "persistent") and rng.chance(1, 60):
                     ctx.sample({"ops": [o[:220] for o in c["ops"][:3]], "impl": [l[:260] for l in impl[:3]]})
@@ -1122,11 +1360,20 @@ def run(ctx: Ctx):
                                                   "detail": "first differing op index %d" % i},
                                        "ops": c["ops"], "category": c["cat"], "observed": impl, "expected_by_model": model}, found_input=False)
             n_prop = sum(v for k, v in ctx._vclass.items() if k.startswith("property:"))
-            if n_prop >= 8 or n_mismatch >= 12:
+            # a translator / proof / build violation is already in hand: three failing inputs are enough (a broken tree can make every
+            # further exchange run into real-time watchdogs — the check must stay fast on such a tree too)
+            have_static = any(not k.startswith("property:") and not k.startswith("correspondence:") for k in ctx._vclass)
+            if n_prop >= (3 if have_static else 8) or n_mismatch >= 12:
                 # failing inputs are in hand; a tree that breaks the property can make every further exchange slow (unexpected time-outs)
                 stopped_early = True
                 ctx.notes.append("stopped after %d of %d cases: %d property violations, %d correspondence mismatches" % (hi, len(cases), n_prop, n_mismatch))
                 break
+        n_prop = sum(v for k, v in ctx._vclass.items() if k.startswith("property:"))
+        limit = max(5, len(cases) // 150)
+        if len(unreproduced) > limit and n_prop == 0:
+            # F5: failures that do not reproduce when run alone are noise of real sockets/threads on a busy machine — up to a point. More than
+            # that is not a verdict either way: machinery failure (exit 2), never a silent pass.
+            raise RuntimeError("machinery: %d cases failed in the stream but not when run alone (limit %d): %s" % (len(unreproduced), limit, unreproduced[:3]))
         ctx.extra["fin_after_complete_response"] = fin_after
         ctx.extra["unreproduced_when_run_alone"] = unreproduced
         ctx.extra["skipped"] = skipped
@@ -1140,10 +1387,12 @@ def run(ctx: Ctx):
     ctx.extra["repo_tree_sha"] = ctx.repo_tree_sha(ANCHOR_FILES)
     ctx.extra["not_proved"] = [
         "R6 wall-clock part (each attempt ends within its configured timeout): the time-out EXPRESSION of every timed wait is extracted and proved to be the configured one (R6_wait_budgets); that the wait then lasts no longer is Transport/condition-variable behaviour (C03/C04) — measured: every timed wait the requesting thread asks for has a configured length, the wait that ends an attempt is the one of its fault class, none is repeated, and a few silent-peer cases run with REAL time-outs",
-        "the condition-variable hand-off inside acquireLease/releaseLease (no lost wake-up) is not modelled: blocking is 'enabled iff the host is free'; that the erase is under _mutex and the notify is notify_all is a translator check, and concurrent runs would hang into the harness watchdog",
+        "the lease wait is modelled as a loop of wake-ups with one absolute deadline (R6_lease_wait_bounded, every wake-up pattern) and driven by the three-caller `contend` operation; what is NOT modelled is the condition variable itself (that notify_all reaches every waiter, no lost wake-up between the predicate test and the wait): pinned by the translator (unique_lock is the first statement of acquireLease and never released, the erase of releaseLease is inside a lock_guard block on the same mutex followed by notify_all) and a lost wake-up would hang `par`/`contend` into the harness watchdog",
+        "DNS (resolveHostAddress for a host name other than localhost) is not driven by the harness (it resets _dnsClient; only 127.0.0.1/localhost are used) and its wait is bounded by DnsClient's defaults only (R6_send_and_dns_waits records that no HttpClient::Config value reaches it); ensureInitialized throwing before the loop (transport start failure: zero attempts, and a second call then finds a non-null, never-started transport) is C07's area and not modelled here",
+        "TSan build of the concurrent streams (the interposed pthread_cond_clockwait would hide the mutex hand-off from TSan) — not done",
     ]
     ctx.assumptions += [
-        "what frameResponse does with the received bytes is C15's model; here its outcome per receive iteration (need-more / complete(info) / malformed / cap) is an input class",
+        "what frameResponse does with the received bytes is C15's model (Model/HttpClientFraming.lean, imported read-only); R4_bytes_reuse_decision_agrees proves that C15's byte-level receive loop and this model's underLease take the same keep/drop decision and return the same result class when the attempt is ABSTRACTED from the bytes (Link.absAttempt) — the lockstep run still feeds this model the outcome CLASS of every receive iteration (need-more / complete(info) / malformed / cap), the byte-level run is C15's lockstep",
         "between the pre-send region and the receive loop executeRequest only assembles the request text and calls sendSync (translator skeleton check); what could still escape there without evicting the connection — std::bad_alloc while building the string, std::logic_error from sendSync on the client's own I/O thread (which runs no user code: HttpClient installs no callback) — is outside the model",
         "`recvResult.isOk() && len == 0` takes no branch of the receive chain; it cannot occur: Transport::receiveSync reports success only from `if (!buf->data.empty())` with min(len, size) >= 1 bytes (translator fact receiveOkHasBytes, transport_impl.hpp) and executeRequest passes len = 8192 / 1",
         "Transport::receiveSync returns within the timeout it is given and reports Timeout/PeerClosed/BufferOverflow/ShuttingDown as documented (C03/C04)",
